@@ -197,6 +197,7 @@ func (e *Env) expr(x ast.Expr) (Val, types.Type, error) {
 			return Val{}, nil, err
 		}
 		idx := f.indexTerm(iv)
+		f.markIndex(idx)
 		switch u := t.Underlying().(type) {
 		case *types.Slice:
 			l := f.sliceElemLoc(v, idx, u.Elem())
@@ -752,7 +753,14 @@ func (e *Env) call(n *ast.CallExpr) (Val, types.Type, error) {
 		sub.entryParams = true
 		return sub.expr(n.Args[0])
 	case "forall", "exists":
-		if len(n.Args) != 4 {
+		explicitAt := false
+		if len(n.Args) == 5 {
+			if id, ok := n.Args[4].(*ast.Ident); ok && id.Name == "at" {
+				explicitAt = true
+			} else {
+				return Val{}, nil, errf("%s: fifth argument must be `at`", name)
+			}
+		} else if len(n.Args) != 4 {
 			return Val{}, nil, errf("%s(i, lo, hi, P) expected", name)
 		}
 		id, ok := n.Args[0].(*ast.Ident)
@@ -767,21 +775,28 @@ func (e *Env) call(n *ast.CallExpr) (Val, types.Type, error) {
 		if err != nil {
 			return Val{}, nil, err
 		}
-		bv := f.fresh("q." + id.Name)
+		bv := fmt.Sprintf("q.%s.d%d", sanitize(id.Name), f.qdepth) // canonical: predicate instances are cached by text
 		sub := e.child()
 		sub.vars[id.Name] = Val{K: KInt, T: bv, Typ: tInt}
 		sub.vtypes[id.Name] = tInt
 		// loads inside the body must not be hoisted into named definitions that mention the bound variable
 		save := f.noDefine
 		f.noDefine = true
+		f.qdepth++
 		body, err := sub.boolExpr(n.Args[3])
+		f.qdepth--
 		f.noDefine = save
 		if err != nil {
 			return Val{}, nil, err
 		}
-		rng := "(and (<= " + lo + " " + bv + ") (< " + bv + " " + hi + "))"
+		// Every quantifier is guarded and triggered by the uninterpreted marker inst!: hypotheses are instantiated
+		// exactly at the marked terms (every index the code uses, every `use at(t)`, every skolem of a quantified goal).
+		// Sound: a VC valid for every interpretation of inst! is in particular valid for inst! = true.
+		f.declareFun("inst!", "(Int) Bool")
+		rng := "(and (inst! " + bv + ") (<= " + lo + " " + bv + ") (< " + bv + " " + hi + "))"
+		_ = explicitAt
 		if name == "forall" {
-			return Val{K: KBool, T: "(forall ((" + bv + " Int)) (=> " + rng + " " + body + "))"}, tBool, nil
+			return Val{K: KBool, T: "(forall ((" + bv + " Int)) (! (=> " + rng + " " + body + ") :pattern ((inst! " + bv + "))))"}, tBool, nil
 		}
 		return Val{K: KBool, T: "(exists ((" + bv + " Int)) (and " + rng + " " + body + "))"}, tBool, nil
 	case "len", "cap":
@@ -865,6 +880,29 @@ func (e *Env) call(n *ast.CallExpr) (Val, types.Type, error) {
 			return Val{}, nil, errf("%s: %d-bit word expected", name, w)
 		}
 		return Val{K: KInt, T: "(" + name + " " + v.T + ")", Typ: tInt}, tInt, nil
+	case "bitof":
+		v, _, err := argv(0)
+		if err != nil {
+			return Val{}, nil, err
+		}
+		j, err := intArg(1)
+		if err != nil {
+			return Val{}, nil, err
+		}
+		if v.K != KBV {
+			return Val{}, nil, errf("bitof: word expected")
+		}
+		return Val{K: KInt, T: fmt.Sprintf("(ite (= ((_ extract 0 0) (shr%di %s %s)) #b1) 1 0)", v.W, v.T, j), Typ: tInt}, tInt, nil
+	case "pow2":
+		j, err := intArg(0)
+		if err != nil {
+			return Val{}, nil, err
+		}
+		t := "0"
+		for k := 62; k >= 0; k-- {
+			t = "(ite (= " + j + " " + fmt.Sprint(k) + ") " + pow2(k) + " " + t + ")"
+		}
+		return Val{K: KInt, T: t, Typ: tInt}, tInt, nil
 	case "mask", "bit", "maskupto", "rmask", "rmaskupto":
 		j, err := intArg(0)
 		if err != nil {
@@ -980,6 +1018,13 @@ func (e *Env) predicate(pd *PredDecl, n *ast.CallExpr) (Val, types.Type, error) 
 		sub.vars[p.Name] = v
 		sub.vtypes[p.Name] = t
 	}
+	if pd.Macro {
+		v, t, err := sub.expr(pd.Body)
+		if err != nil {
+			return Val{}, nil, fmt.Errorf("in definition %s: %v", pd.Name, err)
+		}
+		return v, t, nil
+	}
 	save := f.noDefine
 	f.noDefine = true
 	body, err := sub.boolExpr(pd.Body)
@@ -987,15 +1032,18 @@ func (e *Env) predicate(pd *PredDecl, n *ast.CallExpr) (Val, types.Type, error) 
 	if err != nil {
 		return Val{}, nil, fmt.Errorf("in predicate %s: %v", pd.Name, err)
 	}
-	if f.noDefine {
+	if f.qdepth > 0 {
+		// under a quantifier: the instance mentions bound variables and cannot be named
 		return Val{K: KBool, T: body}, tBool, nil
 	}
-	if nm, ok := f.predCache[body]; ok {
+	key := f.canon(body)
+	if nm, ok := f.predCache[key]; ok {
 		return Val{K: KBool, T: nm}, tBool, nil
 	}
-	nm := f.fresh("P." + pd.Name)
+	nm := f.fresh("P." + strings.ReplaceAll(pd.Name, ":", "_"))
 	f.emit("(define-fun " + nm + " () Bool " + body + ")")
-	f.predCache[body] = nm
+	f.predCache[key] = nm
+	f.predIdx[nm] = len(f.cmds)
 	return Val{K: KBool, T: nm}, tBool, nil
 }
 
@@ -1028,6 +1076,19 @@ func (e *Env) specCall(sd *SpecDecl, n *ast.CallExpr) (Val, types.Type, error) {
 		if v.K == KInt && k == KBV {
 			v = Val{K: KBV, W: w, T: f.intToBV(v, w)}
 		}
+		if sl, ok := pt.Underlying().(*types.Slice); ok && v.K == KSlice {
+			// sequences are passed by content: (array, offset, length)
+			ek, ew := kindOfType(sl.Elem())
+			if ek != KStruct && ek != KBad && ek != KArrayVal {
+				a, o, l, err := e.seqArgs(v, pt)
+				if err != nil {
+					return Val{}, nil, err
+				}
+				args = append(args, a, o, l)
+				sorts = append(sorts, "(Array Int "+sortOf(ek, ew)+")", "Int", "Int")
+				continue
+			}
+		}
 		args = append(args, f.termAs(v, k, w))
 		sorts = append(sorts, sortOf(k, w))
 	}
@@ -1050,6 +1111,18 @@ func (e *Env) useLemma(x ast.Expr) error {
 	id, ok := call.Fun.(*ast.Ident)
 	if !ok {
 		return errf("use: lemma name expected")
+	}
+	if id.Name == "at" {
+		// instantiate the `at`-triggered quantified clauses at these terms
+		e.f.declareFun("inst!", "(Int) Bool")
+		for _, a := range call.Args {
+			v, _, err := e.expr(a)
+			if err != nil {
+				return err
+			}
+			e.f.assume("(inst! " + e.f.indexTerm(v) + ")")
+		}
+		return nil
 	}
 	pd, ok := e.f.G.CS.Preds["lemma:"+id.Name]
 	if !ok {
